@@ -450,6 +450,60 @@ def damage_archive(path, how, arg=None):
         shutil.rmtree(d, ignore_errors=True)
 
 
+class IndexReader:
+    """While a command runs, ANOTHER process is in the middle of reading the version index (the explorer serving a request, a
+    second `cond where`, a backup tool): it holds SQLite's shared lock from the moment the index (and its table) exists until
+    the command has returned.  A separate process, as RowWatcher."""
+
+    def __init__(self, root):
+        self.stop_file = os.path.join(root, "..", "reader.stop.%d" % os.getpid())
+        self.ready_file = os.path.join(root, "..", "reader.ready.%d" % os.getpid())
+        for f in (self.stop_file, self.ready_file):
+            if os.path.exists(f):
+                os.unlink(f)
+        path = os.path.join(root, "cond-out", "version_index.sqlite")
+        self.pid = os.fork()
+        if self.pid == 0:
+            try:
+                C._die_with_parent()
+                conn = None
+                while not os.path.exists(self.stop_file):
+                    if conn is None and os.path.exists(path):
+                        try:
+                            conn = sqlite3.connect(path, isolation_level=None, timeout=0.05)
+                            conn.execute("BEGIN")
+                            conn.execute("SELECT count(*) FROM version_index").fetchall()
+                            open(self.ready_file, "w").close()
+                        except sqlite3.Error:
+                            try:
+                                conn.close()
+                            except Exception:
+                                pass
+                            conn = None
+                    time.sleep(0.002)
+            finally:
+                os._exit(0)
+        # the index exists already: the reader is in place BEFORE the command starts
+        self.early = False
+        if os.path.exists(path):
+            t0 = time.time()
+            while not os.path.exists(self.ready_file) and time.time() - t0 < 5:
+                time.sleep(0.002)
+            self.early = os.path.exists(self.ready_file)
+
+    def finish(self):
+        open(self.stop_file, "w").close()
+        try:
+            os.waitpid(self.pid, 0)
+        except ChildProcessError:
+            pass
+        held = self.early
+        for f in (self.stop_file, self.ready_file):
+            if os.path.exists(f):
+                os.unlink(f)
+        return held
+
+
 class RowWatcher:
     """While a command runs: the moment a new row appears in the version index, the tree of that version's directory is
     snapshotted; finish() names the versions whose directory content changed AFTER they were recorded.
@@ -641,8 +695,10 @@ def run_history(scn):
             watcher = RowWatcher(tgt_root, before) if st.get("watch") else None
             # st["env"]: what `cond` finds in its OWN environment (nested use: an outer task's COND_* variables); "@root" = project
             amb = {k_: v_.replace("@root", tgt_root) for k_, v_ in (st.get("env") or {}).items()}
+            reader = IndexReader(tgt_root) if st.get("reader") else None
             r = run_command(tgt_root, argv, cwd=st.get("cwd", ""), clock=clock, crash_at=st.get("crash_at"),
                             count=st.get("count", False), env=amb)
+            reader_held = reader.finish() if reader else None
             late_writes = watcher.finish() if watcher else []
             after = CLI.project_store(tgt_root)
             oafter = outside_digest(root)
@@ -673,7 +729,11 @@ def run_history(scn):
                 ap = os.path.join(root, st["archive"])
                 rec["tar"] = tar_members(ap) if os.path.isfile(ap) else None
                 rec["defect"] = st.get("defect", "none")
+                if reader is not None and not reader_held:
+                    rec["defect"] = "none"      # the reader was not in place before the command: nothing stood in its way
             rec["label"] = st.get("label")
+            if reader is not None:
+                rec["reader_held"] = reader_held
             steps.append(rec)
             before, obefore = after, oafter
         return {"steps": steps, "root": os.path.realpath(root)}
